@@ -6,7 +6,7 @@ translates the scripted clock strings; observations are directory contents as (i
 """
 import datetime
 
-from vlib import cZ, cnat, cbool, clist, cpair
+from vlib import cZ, cnat, cbool, clist, cpair, cstr
 
 ID = "C19"
 GO_PKG = "./lib/logx"
@@ -186,7 +186,7 @@ def search(rng, problems):
 
 
 def _nm(s):
-    return "(nm %s)" % clist([str(b) for b in s.encode("latin-1")])
+    return "(sn %s)" % cstr(s)
 
 
 def _file(name, recs, gz):
